@@ -25,6 +25,33 @@ type c06Struct struct {
 	H json.Number            `json:"h,string"`
 }
 
+// destinations whose keys go through the 16-bit key bitmap (9..16 fields) and through no bitmap at all
+type c06Struct12 struct {
+	Alpha, Beta, Gamma, Delta, Epsilon, Zeta, Eta, Theta, Iota, Kappa int
+	Name                                                              string `json:"name"`
+	LongestFieldNameOfAll                                             []int
+}
+type c06Struct20 struct {
+	F00, F01, F02, F03, F04, F05, F06, F07, F08, F09 int
+	F10, F11, F12, F13, F14, F15, F16, F17, F18      string
+	Last                                             map[string]int `json:"last"`
+}
+
+// documents that press on the key matchers: keys that extend, fold, escape and truncate field names
+func c06KeyDocs(t reflect.Type) []string {
+	var out []string
+	for i := 0; i < t.NumField(); i++ {
+		name := strings.Split(t.Field(i).Tag.Get("json"), ",")[0]
+		if name == "" {
+			name = t.Field(i).Name
+		}
+		for _, k := range []string{name, name + "s", name + "_", strings.ToUpper(name) + "X", name[:len(name)-1] + `\u00` + fmt.Sprintf("%02x", name[len(name)-1]) + "z", name + name, strings.Repeat(name, 5)} {
+			out = append(out, `{"`+k+`":1}`, `{"`+k+`":"x","`+k+`":[1]}`, `{"`+k)
+		}
+	}
+	return out
+}
+
 var c06Paths []*json.Path
 
 func init() {
@@ -79,6 +106,8 @@ func c06All(c *Ctx, text []byte, t reflect.Type, label string, light bool) {
 	cp := func() []byte { return append([]byte(nil), text...) }
 	run("Unmarshal-iface", func() { var v interface{}; _ = json.Unmarshal(cp(), &v) })
 	run("Unmarshal-struct", func() { var v c06Struct; _ = json.Unmarshal(cp(), &v) })
+	run("Unmarshal-struct12", func() { var v c06Struct12; _ = json.Unmarshal(cp(), &v) })
+	run("Unmarshal-struct20", func() { var v c06Struct20; _ = json.Unmarshal(cp(), &v) })
 	run("Valid", func() { _ = json.Valid(cp()) })
 	run("Compact", func() { var b bytes.Buffer; _ = json.Compact(&b, cp()) })
 	run("Indent", func() { var b bytes.Buffer; _ = json.Indent(&b, cp(), ">", "\t") })
@@ -104,6 +133,14 @@ func c06All(c *Ctx, text []byte, t reflect.Type, label string, light bool) {
 			_ = d.InputOffset()
 			_, _ = io.ReadAll(d.Buffered())
 		}
+	})
+	run("Decoder-struct12-3", func() {
+		var v c06Struct12
+		_ = json.NewDecoder(&chunkReader{data: cp(), size: 3}).Decode(&v)
+	})
+	run("Decoder-struct20-3", func() {
+		var v c06Struct20
+		_ = json.NewDecoder(&chunkReader{data: cp(), size: 3}).Decode(&v)
 	})
 	run("Decoder-usenumber-disallow", func() {
 		d := json.NewDecoder(bytes.NewReader(cp()))
@@ -154,9 +191,17 @@ func runC06(c *Ctx) {
 		d := &docGen{r: rng, noise: []int{0, 10, 40}[rng.Intn(3)]}
 		doc := []byte(d.forType(t, 3))
 		if k%3 == 0 {
-			doc = []byte(d.forType(reflect.TypeOf(c06Struct{}), 3))
+			doc = []byte(d.forType([]reflect.Type{reflect.TypeOf(c06Struct{}), reflect.TypeOf(c06Struct12{}), reflect.TypeOf(c06Struct20{})}[(k/3)%3], 3))
 		}
 		c06All(c, doc, t, "valid", false)
+		if k < 2 {
+			// keys that extend, fold, escape and truncate the names of the struct destinations
+			for _, st := range []reflect.Type{reflect.TypeOf(c06Struct{}), reflect.TypeOf(c06Struct12{}), reflect.TypeOf(c06Struct20{})} {
+				for _, kd := range c06KeyDocs(st) {
+					c06All(c, []byte(kd), st, "keys", k == 1)
+				}
+			}
+		}
 		// prefixes
 		step := 1
 		if len(doc) > 80 {
